@@ -176,12 +176,20 @@ EvErrors(e) ==
   \cup Fail("shared_accepted", SharesIdenticalOnly(StripO(m)) => e.errs = <<>>)
 
 (* ---- C04: constructors have their documented truth functions -------------------- *)
+RECURSIVE PlainClasses(_)
+PlainClasses(r) == IsLeafR(r) \/ (r.c \in {"All", "Any", "AtLeast", "AtMost", "Xor", "ExactlyOne"} /\ \A i \in DOMAIN r.a : PlainClasses(r.a[i]))
 EvBuild(e) ==
   LET r == e.recipe
       m == e.model
       lids == RLeafIds(r)
-  IN IF ~Documented(r) THEN {"outside_domain"} ELSE
-     Fail("leaves_same", ~IsAtom(m) /\ LeafIds(m) = lids /\ BoolLeaves(m))
+      sm == Mk(r)
+  IN IF ~Documented(r) \/ IsAtom(sm) \/ ~WellDefined(sm) \/ ~NoByRef(sm) THEN {"outside_domain"}
+     \* (below a negating connective the library's wrappers of negated leaves may coincide - by their generated ids - with a sibling the
+     \* caller wrote, e.g. XNor(b, AtMost(0, [b])): such objects do not validate, and generated ids are not modelled to that precision)
+     ELSE IF e.errs # <<>> /\ ~PlainClasses(r) THEN {"outside_domain"} ELSE
+     \* a recipe without negating connectives that denotes a well-defined model is built into an object that passes validation
+     Fail("built_valid", e.errs = <<>>)
+     \cup Fail("leaves_same", ~IsAtom(m) /\ LeafIds(m) = lids /\ BoolLeaves(m))
      \cup Fail("table_complete", { PairsFn(e.table[i].asg) : i \in DOMAIN e.table } = [lids -> {0, 1}])
      \cup Fail("truthfn", \A i \in DOMAIN e.table : LET a == PairsFn(e.table[i].asg) IN
                   e.table[i].ev = <<TF(r, a), TF(r, a)>>)
@@ -196,8 +204,6 @@ JNodes(j) == {j} \cup UNION { JNodes(j.kids[i]) : i \in DOMAIN j.kids }
 JIds(j) == { x.id : x \in { x \in JNodes(j) : ~x.leaf /\ x.id # "" } }
 LeafDefs(n) == { <<x.id, x.lo, x.hi>> : x \in Atoms(n) }
 \* ids the user gave explicitly (from the recipe): generated ids are not compared by name
-RECURSIVE RExplicit(_)
-RExplicit(r) == IF IsLeafR(r) THEN {} ELSE (IF r.id = "" THEN {} ELSE {r.id}) \cup UNION { RExplicit(r.a[i]) : i \in DOMAIN r.a }
 \* defaults / priorities attached to nodes
 Tags(n, named) == { << (IF x.id \in named THEN x.id ELSE ""), x.dflt, x.prio >> : x \in { x \in Comps(n) : x.dflt # <<>> \/ x.prio # -1 } }
 ColLo(cols) == [ i \in ColIds(cols) |-> cols[CHOOSE j \in DOMAIN cols : cols[j].id = i].lo ]
